@@ -100,6 +100,10 @@ pub fn pat(r: &mut Rng, f: Fmt) -> u64 {
                     if r.chance(1, 2) {
                         let tz = r.below(rest as u64) as u32;
                         tail &= !((1u64 << tz) - 1);
+                        if r.chance(1, 4) {
+                            // ... plus a tiny tail (see the short-fraction class below)
+                            tail = tail.wrapping_add(r.range(-2, 2) as u64) & ((1u64 << (rest - 1)) - 1);
+                        }
                     }
                     body |= tail;
                 }
@@ -147,9 +151,16 @@ pub fn pat(r: &mut Rng, f: Fmt) -> u64 {
         }
         11..=13 => {
             // short fraction: uniform pattern with trailing zeros (exact results, exact ties)
+            // and, a third of the time, the same plus or minus 1..3 units of the last place: a
+            // value with few significant bits followed by a long run of zeros (ones) and a tiny
+            // tail - "tie + epsilon" for every operation that narrows or rounds to an integer
             let tz = r.below(nb as u64) as u32;
             let v = (r.next() & mask) & !((1u64 << tz) - 1);
-            v
+            if r.chance(1, 3) {
+                v.wrapping_add(r.range(-3, 3) as u64) & mask
+            } else {
+                v
+            }
         }
         _ => {
             // powers of two and their neighbours
@@ -168,6 +179,33 @@ pub fn pat(r: &mut Rng, f: Fmt) -> u64 {
 }
 
 // ---------------------------------------------------------------------------- constructed rounding traps
+
+/// how many operand tuples were produced by the constructed-trap generators in this process
+pub static TRAPS_FUSED: std::sync::atomic::AtomicU64 = std::sync::atomic::AtomicU64::new(0);
+pub static TRAPS_PRODUCT: std::sync::atomic::AtomicU64 = std::sync::atomic::AtomicU64::new(0);
+thread_local! {
+    static TRAP_LOCAL: std::cell::Cell<(u64, u64)> = const { std::cell::Cell::new((0, 0)) };
+}
+fn count_trap(fused: bool) {
+    // batched so that the shared counters are touched once per 4096 traps
+    TRAP_LOCAL.with(|c| {
+        let (mut a, mut b) = c.get();
+        if fused {
+            a += 1;
+            if a == 4096 {
+                TRAPS_FUSED.fetch_add(a, std::sync::atomic::Ordering::Relaxed);
+                a = 0;
+            }
+        } else {
+            b += 1;
+            if b == 4096 {
+                TRAPS_PRODUCT.fetch_add(b, std::sync::atomic::Ordering::Relaxed);
+                b = 0;
+            }
+        }
+        c.set((a, b));
+    });
+}
 
 /// inverse of an odd number modulo 2^64 (Newton iteration)
 fn inv_pow2(a: u64) -> u64 {
@@ -206,7 +244,7 @@ fn small_odd(r: &mut Rng) -> u64 {
 }
 
 /// widest significand (hidden bit included) a value of this scale can carry in format f (0: none)
-fn avail_width(f: Fmt, scale: i32) -> u32 {
+pub fn avail_width(f: Fmt, scale: i32) -> u32 {
     let k = scale.div_euclid(1 << f.es);
     let rl = if k >= 0 { k + 2 } else { -k + 1 };
     let fb = f.n as i32 - 1 - rl - f.es as i32;
@@ -379,6 +417,7 @@ pub fn fused_trap(r: &mut Rng, f: Fmt) -> Option<[u64; 3]> {
         let b = exact_pattern(f, r.chance(1, 2), sb, b_sig);
         let c = exact_pattern(f, r.chance(1, 2), sc, c_sig);
         if let (Some(a), Some(b), Some(c)) = (a, b, c) {
+            count_trap(true);
             return Some(if r.chance(1, 2) { [a, b, c] } else { [b, a, c] });
         }
     }
@@ -440,6 +479,7 @@ pub fn partner(r: &mut Rng, f: Fmt, a: u64) -> u64 {
     let mask = f.mask();
     if r.chance(1, 12) {
         if let Some(b) = product_trap_partner(r, f, a) {
+            count_trap(false);
             return b;
         }
     }
